@@ -56,7 +56,7 @@ StdFlags(i) == LET ch == StdCh(i) IN
    p1 |-> IF StdInh(i) = "none" THEN NONE ELSE i - 1, p2 |-> IF StdInh(i) = "dyn" THEN cfg.N + 1 ELSE NONE]
 (* the body script of a family exercises the members that family varies *)
 StdBody(t, hp, hn, mode, fam) ==
-  LET wf == fam \in {"dispatch", "dyn"}  wa == fam = "attrs" IN
+  LET wf == fam \in {"dispatch", "dyn", "entry"}  wa == fam \in {"attrs", "entry"} IN
   <<Op("open", "", "")>>
   \o If(wf, <<Op("call", "self", "f")>>)
   \o If(wf /\ hn, <<Op("call", "next", "f")>>)
@@ -76,15 +76,18 @@ StdF(hp) == <<Op("emit", "f", "")>> \o If(hp, <<Op("call", "parent", "f")>>)
 StdB(t, hp) == <<Op("emit", "B", "b")>> \o If(hp, <<Op("call", "parent", "b")>>)
                \o If(t.c = "inb", <<Op("here", "", "c")>>) \o <<Op("emit", "/B", "b")>>
 StdC == <<Op("emit", "B", "c"), Op("emit", "/B", "c")>>
+(* def probe: written in every template; looks at all four namespaces whether or not they exist there *)
+StdProbe == <<Op("emit", "probe", ""), Op("call", "self", "f"), Op("call", "local", "f"), Op("call", "parent", "f"), Op("call", "next", "f"),
+              Op("attr", "self", "a"), Op("attr", "local", "a"), Op("attr", "parent", "a"), Op("attr", "next", "a")>>
 StdScript(i, kind) == LET hp == StdInh(i) # "none" IN
   CASE kind = "body" -> StdBody(StdCh(i), hp, StdHn(i), cfg.mode, cfg.fam) [] kind = "f" -> StdF(hp)
-    [] kind = "b" -> StdB(StdCh(i), hp) [] kind = "c" -> StdC
+    [] kind = "b" -> StdB(StdCh(i), hp) [] kind = "c" -> StdC [] kind = "probe" -> StdProbe
 
 (* flags of template i: [f, a, b, c, inh, p1, p2]; scripts of template i *)
 T(i) == IF IsTrace THEN TraceTpl(cfg.id, i) ELSE StdFlags(i)
 ScriptOf(i, kind) ==
   IF IsTrace THEN LET t == TraceTpl(cfg.id, i) IN
-       CASE kind = "body" -> t.body [] kind = "f" -> t.fs [] kind = "b" -> t.bs [] kind = "c" -> t.cs
+       CASE kind = "body" -> t.body [] kind = "f" -> t.fs [] kind = "b" -> t.bs [] kind = "c" -> t.cs [] kind = "probe" -> t.ps
   ELSE StdScript(i, kind)
 FullTpl(i) == T(i) @@ [body |-> ScriptOf(i, "body"), fs |-> ScriptOf(i, "f"), bs |-> ScriptOf(i, "b"), cs |-> ScriptOf(i, "c")]
 (* the inherit target of template i, evaluated as write_inherit's expression would be *)
@@ -99,12 +102,21 @@ Choices(fam) ==
     [] fam = "blocks" -> {ch \in [f : {FALSE}, a : {"none"}, b : BOOLEAN, c : {"none", "top", "inb"}] : ch.c = "inb" => ch.b}
     [] fam = "args" -> [f : {FALSE}, a : {"none"}, b : BOOLEAN, c : {"none"}]
     [] fam = "dyn" -> [f : BOOLEAN, a : {"none"}, b : BOOLEAN, c : {"none"}]
+    [] fam = "entry" -> [f : BOOLEAN, a : {"none", "truthy"}, b : {FALSE}, c : {"none"}]
 Modes(fam) == CASE fam = "blocks" -> {"next", "self", "none"} [] fam = "args" -> {"next", "self"} [] OTHER -> {"next"}
-Families == {"dispatch", "attrs", "blocks", "args", "dyn"}
+Families == {"dispatch", "attrs", "blocks", "args", "dyn", "entry"}
+(* The render REQUEST: made on template `top` of the chain as written (any level, not only N: the templates below *)
+(* `top` form its chain, the ones above are simply not part of this render), through entry point `entry`:        *)
+(*   "render"  Template.render / render_unicode / render_context: the body of the base-most ancestor runs;        *)
+(*   "def"     Template.get_def("probe").render...: _render_context links the chain of `top` in exactly the same  *)
+(*             way and then runs that def of `top` in the context of `top` (self = top, local = top, parent = the *)
+(*             template below, no next); no body runs.                                                            *)
+Entries(fam, N) == IF fam = "entry" THEN (1..N) \X {"render", "def"} ELSE {<<N, "render">>}
 Configs ==
   UNION {UNION {UNION {
-     {[fam |-> fam, N |-> N, ch |-> ch, mode |-> mode, k |-> ks[1], sw |-> ks[2], pa |-> (fam = "args")] :
-        ks \in IF fam = "dyn" THEN {z \in (1..N) \X {"p1", "p2", "none"} : ~(z[1] = 1 /\ z[2] = "p1")} ELSE {<<0, "p1">>}}
+     {[fam |-> fam, N |-> N, ch |-> ch, mode |-> mode, k |-> ks[1], sw |-> ks[2], pa |-> (fam = "args"), top |-> en[1], entry |-> en[2]] :
+        ks \in (IF fam = "dyn" THEN {z \in (1..N) \X {"p1", "p2", "none"} : ~(z[1] = 1 /\ z[2] = "p1")} ELSE {<<0, "p1">>}),
+        en \in Entries(fam, N)}
      : ch \in [1..N -> Choices(fam)], mode \in Modes(fam)} : N \in 1..MaxN[fam]} : fam \in Families}
 
 Blank == [self |-> NONE, local |-> NONE, next |-> NONE, parent |-> NONE]
@@ -118,8 +130,8 @@ Init == \E c \in Configs : InitWith(c)
 (* _render_context -> _populate_self_namespace(context, template N) *)
 PopulateSelf ==
   /\ phase = "start"
-  /\ ctx' = [ctx EXCEPT ![cfg.N] = [Blank EXCEPT !.self = cfg.N, !.local = cfg.N]]
-  /\ cur' = cfg.N /\ phase' = "link"
+  /\ ctx' = [ctx EXCEPT ![cfg.top] = [Blank EXCEPT !.self = cfg.top, !.local = cfg.top]]
+  /\ cur' = cfg.top /\ phase' = "link"
   /\ UNCHANGED <<cfg, inh, memo, stack, out, hist>>
 RECURSIVE EndOf(_)
 EndOf(n) == IF inh[n] = NONE THEN n ELSE EndOf(inh[n])
@@ -136,8 +148,13 @@ InheritFrom ==
   /\ UNCHANGED <<cfg, phase, memo, stack, out, hist>>
 (* no further <%inherit>: (template.callable_, lclcontext) is returned and executed *)
 RunBodyOfBase ==
-  /\ phase = "link" /\ Target(cur) = NONE
+  /\ phase = "link" /\ Target(cur) = NONE /\ cfg.entry = "render"
   /\ phase' = "run" /\ stack' = <<[tpl |-> cur, kind |-> "body", pc |-> 1, x |-> -1]>>
+  /\ UNCHANGED <<cfg, cur, inh, ctx, memo, out, hist>>
+(* DefTemplate branch of _render_context: the chain has been linked; the requested def of `top` runs in top's context *)
+RunDefOfTop ==
+  /\ phase = "link" /\ Target(cur) = NONE /\ cfg.entry = "def"
+  /\ phase' = "run" /\ stack' = <<[tpl |-> cfg.top, kind |-> "probe", pc |-> 1, x |-> 0]>>
   /\ UNCHANGED <<cfg, cur, inh, ctx, memo, out, hist>>
 
 (* ------------------------------------------------------------------ member resolution *)
@@ -210,13 +227,13 @@ Step ==
   /\ UNCHANGED <<cfg, phase, cur, inh, ctx>>
 Finish == /\ phase = "run" /\ stack = <<>> /\ phase' = "done"
           /\ UNCHANGED <<cfg, cur, inh, ctx, memo, stack, out, hist>>
-Next == PopulateSelf \/ InheritFrom \/ RunBodyOfBase \/ Step \/ Finish
+Next == PopulateSelf \/ InheritFrom \/ RunBodyOfBase \/ RunDefOfTop \/ Step \/ Finish
 Spec == Init /\ [][Next]_vars
 
 (* ------------------------------------------------------------------ the property, over the chain as configured *)
 RECURSIVE ChainTo(_)
 ChainTo(i) == IF Target(i) = NONE THEN <<i>> ELSE Append(ChainTo(Target(i)), i)
-Chain == ChainTo(cfg.N)                                   \* base-most first
+Chain == ChainTo(cfg.top)                                   \* base-most first
 Pos(i) == CHOOSE p \in 1..Len(Chain) : Chain[p] = i
 InChain(i) == \E p \in 1..Len(Chain) : Chain[p] = i
 (* the definition an adjacent-or-own template at position p answers with: own, else nearest toward the base *)
@@ -227,7 +244,7 @@ NearestFrom(p, name) ==
 Linked == phase \in {"run", "done"}
 H == {hist[k] : k \in 1..Len(hist)}
 SelfMostDerived_ ==
-  /\ Linked => \A i \in Ids : InChain(i) => ctx[i].self = cfg.N
+  /\ Linked => \A i \in Ids : InChain(i) => ctx[i].self = cfg.top
   /\ \A e \in H : e.via = "self" => e.got = NearestFrom(Len(Chain), e.name)
 NextParentAdjacent_ ==
   /\ Linked => \A p \in 1..Len(Chain) :
@@ -236,6 +253,8 @@ NextParentAdjacent_ ==
         /\ inh[Chain[p]] = (IF p > 1 THEN Chain[p - 1] ELSE NONE)
   /\ \A e \in H : /\ (e.via = "next" /\ Pos(e.from) < Len(Chain)) => e.got = NearestFrom(Pos(e.from) + 1, e.name)
                   /\ (e.via = "parent" /\ Pos(e.from) > 1) => e.got = NearestFrom(Pos(e.from) - 1, e.name)
+                  /\ (e.via = "next" /\ Pos(e.from) = Len(Chain)) => e.got = NONE        \* nothing is derived from the template the request was made on
+                  /\ (e.via = "parent" /\ Pos(e.from) = 1) => e.got = NONE
 LocalIsOwn_ ==
   /\ Linked => \A i \in Ids : InChain(i) => ctx[i].local = i
   /\ \A e \in H : e.via = "local" => e.got = NearestFrom(Pos(e.from), e.name)
@@ -250,7 +269,10 @@ AttrValues_ ==
   \A k \in 1..Len(out) : (out[k].k = "attr" /\ InChain(out[k].l)) =>
      LET r == AttrAnswer(out[k].n, out[k].l) IN
      out[k + 1] = (IF r = NONE THEN Tok("ERR", "", 0, 0) ELSE Tok("val", "", r, IF T(r).a = "truthy" THEN 1 ELSE 0))
-BaseBodyRuns_ == (Linked /\ out # <<>>) => out[1] = Tok("open", "", Chain[1], -1)
+BaseBodyRuns_ ==
+  /\ (Linked /\ out # <<>> /\ cfg.entry = "render") => out[1] = Tok("open", "", Chain[1], -1)
+  /\ cfg.entry = "def" => /\ \A k \in 1..Len(out) : out[k].k # "open"                       \* get_def: no body runs at all,
+                          /\ out # <<>> => out[1] = Tok("probe", "", cfg.top, 0)             \* the def of the requested template does
 MemoSound_ == \A m \in memo : NsLookup(m.ns, m.name) = m.got
 (* named blocks *)
 BlockNames == {"b", "c"}
